@@ -40,6 +40,9 @@ def hostile(extra=None):
             return ["builtins.UnicodeDecodeError"]
         if name == "http.cookies.SimpleCookie" or name.endswith("SimpleCookie.load"):
             # parsing peer-supplied Set-Cookie text: an attribute name with an illegal character raises CookieError
+            last = run.effects[-1] if run.effects else None
+            if last is not None and last.name == name and name == "http.cookies.SimpleCookie" and not last.args and not [k for k in last.kwargs if not k.startswith("@")]:
+                return []   # SimpleCookie() without input parses nothing
             return ["http.cookies.CookieError"]
         if name == "builtins.int":
             arg = getattr(run, "cur_arg", None)
@@ -456,3 +459,9 @@ def r6(ctx):
                f"after a frame is rejected ({bad[1].exc_class}) the reader keeps {sorted(bad[0])} of that frame: the next receive call skips header parsing and "
                f"reads the following frame's bytes as payload of the stale header (or fails again without consuming anything)", loc, {"path": path_text(bad[1])} if bad else None)
 
+
+
+@rule("R-C17-7", min_instances=3, title="the server cannot exhaust the client's stack: frames that are not handed to the caller (pings, pongs, fragments) are consumed by iteration -- RecursionError is not a documented exception")
+def r_sib_r_c17_7(ctx):
+    from .c07 import r7 as loop_not_recursion
+    loop_not_recursion(ctx)
